@@ -1,12 +1,38 @@
-"""setup_cmd: verify that the tools the checks need answer; builds nothing from /repo."""
-import subprocess, sys, shutil
+"""setup_cmd: verify that the tools the checks need answer and check the Lean lemmas.
+Builds nothing from /repo (every check does that itself).  Writes build/lean_status.json with the
+SHA-256 of every accepted Lean file; checks refuse to cite a lemma whose file hash differs."""
+import hashlib
+import json
+import os
+import subprocess
+import sys
+import time
+
+HERE = os.path.dirname(os.path.abspath(__file__))
 ok = True
-for cmd in (['/venv/bin/python', '-c', 'import numpy'], ['clang', '--version'], ['/usr/bin/cvc5', '--version']):
+for cmd in (['/venv/bin/python', '-c', 'import numpy'], ['clang', '--version'], ['gcc', '--version'],
+            ['/usr/bin/cvc5', '--version']):
     try:
         subprocess.run(cmd, check=True, capture_output=True, timeout=120)
-    except Exception as e:
+    except Exception as e:      # noqa
         print('MISSING', cmd, e)
         ok = False
-import z3
+import z3  # noqa: E402
 print('z3', z3.get_version_string())
+status = {}
+ldir = os.path.join(HERE, 'specs', 'lean')
+os.makedirs(os.path.join(HERE, 'build'), exist_ok=True)
+for f in sorted(os.listdir(ldir)):
+    if not f.endswith('.lean'):
+        continue
+    path = os.path.join(ldir, f)
+    src = open(path, 'rb').read()
+    t0 = time.time()
+    p = subprocess.run(['lean', path], capture_output=True, text=True, timeout=3600, cwd=ldir)
+    accepted = p.returncode == 0 and 'error' not in p.stdout and 'sorry' not in p.stdout and b'sorry' not in src
+    status[f] = dict(sha256=hashlib.sha256(src).hexdigest(), accepted=accepted, seconds=round(time.time() - t0, 1),
+                     output=(p.stdout + p.stderr)[-1500:])
+    print('lean', f, 'accepted' if accepted else 'REJECTED', status[f]['seconds'], 's')
+    ok = ok and accepted
+json.dump(status, open(os.path.join(HERE, 'build', 'lean_status.json'), 'w'), indent=1)
 sys.exit(0 if ok else 1)
